@@ -606,12 +606,15 @@ fn replay_windows(v: &Value) -> Result<(), String> {
     }
 }
 
+crate::long_sub!(run_long_history, [22, 23]);
+
 pub fn def() -> PropDef {
     PropDef {
         id: "C02",
         rule: "(P, k) with P from every point class (arbitrary curve points for the plain paths, subgroup points for table-driven and wNAF paths) in generated Jacobian representatives and k from the structured scalar generator (0, 1, r-1, r, r+1, every single bit, bit pairs, masks 2^n-1, patterns straddling 64-bit words and 32-bit chunks, 2^255-1, 2^255, 2^256-1, sparse, uniform), through mul_assign, CurveAffine::mul, mul_precomp_3, mul_precomp_256 (k < 2^256), Wnaf in both staging orders and shared() variants (k < 2^255); explicit windows via the hook path; histories reusing one context; exhaustive: 256 single-bit scalars x all paths x both groups, every recommended window 4..=16 through the public path, recommendation functions. Oracle: model [k]P. Non-trivial = k not in {0,1} and P != O (histories: >= 2 phases and >= 2 results); distinct = distinct cases",
         needs_pairing: false,
         subs: vec![
+            Box::new(crate::engine::EnumSub { name: "long-history", rule: super::longhist::RULE, run: run_long_history, replay: super::longhist::replay, exhaustive: false }),
             Box::new(Sub { name: "g1-paths", rule: "G1: (P, rep, k) through all applicable paths", quick: 2_250, thorough: 30_000, strategy: || boxed(mul_case_strategy(0)), check: check_mul_any }),
             Box::new(Sub { name: "g2-paths", rule: "G2: (P, rep, k) through all applicable paths", quick: 1_500, thorough: 15_000, strategy: || boxed(mul_case_strategy(1)), check: check_mul_any }),
             Box::new(Sub { name: "recode", rule: "wnaf_form for every window 2..=22 into a digit buffer with stale content; for windows <= 8 the digits are evaluated on the crate's own table and compared with the model [k]P (the digit form itself is recorded as a diagnostic only)", quick: 50_000, thorough: 1_000_000, strategy: || boxed(recode_strategy()), check: check_recode }),
